@@ -126,7 +126,10 @@ def hist(cm, cs, bs, ops):
             elif t[0] == "derivec":
                 f.bf3file.derive_comments_from_config(cfg(t[1]))
             elif t[0] == "derivea":
-                f.derive_auth_blocks_from_config(cfg(t[1]), t[2] == "1")
+                if t[2] == "1" or len(t[1]) % 2:
+                    f.derive_auth_blocks_from_config(cfg(t[1]), t[2] == "1")
+                else:
+                    f.derive_auth_blocks_from_config(cfg(t[1]))          # no customer-key support is the default
             elif t[0] == "append":
                 f.bf3file.components.append(b3.parse_comps(t[1])[0])
             elif t[0] == "insert":
@@ -382,7 +385,10 @@ def prop_c11(cm, cs, bs, ops):
             elif t[0] == "derivea":
                 conf = parse_dict(t[1])
                 had = bool(f.auth_blocks)
-                f.derive_auth_blocks_from_config(live, t[2] == "1")
+                if t[2] == "1" or len(t[1]) % 2:
+                    f.derive_auth_blocks_from_config(live, cust_key_support=(t[2] == "1"))
+                else:
+                    f.derive_auth_blocks_from_config(live)
                 if not had:
                     ref = Bec2File(Bf3File(), [], bytes(16))
                     want = ["c" if t[2] == "1" else "e0"]
